@@ -66,6 +66,14 @@ package gsfa
 //@   loop 0 invariant 0 < limit && limit <= 4611686018427387904 ==> lensum(transactions) <= limit
 //@   loop 1 invariant 0 < limit && limit <= 4611686018427387904 ==> lensum(transactions) <= limit
 //@   loop 2 invariant 0 < limit && limit <= 4611686018427387904 ==> lensum(transactions) <= limit
+//@   # C19/C07 (no premature end of a chain walk): the walk of one epoch's chain of records (loop 1) is left early only for
+//@   # one of these reasons - the chain ended, the limit is reached, the record was empty, a transaction below the window was
+//@   # seen (records are newest first, so everything older is below the window too). Any other early exit has no stated reason.
+//@   loop 1 exit#0 next == nil || (next.Offset == 0 && next.Size == 0)
+//@   loop 1 exit#1 limit > 0 && (lensum(transactions) <= 4611686018427387904 ==> lensum(transactions) >= limit)
+//@   loop 1 exit#2 len(locations) == 0
+//@   loop 1 exit#3 tx.Slot < 0 || uint64(tx.Slot) < until
+//@   loop 1 exit#4 limit > 0 && (lensum(transactions) <= 4611686018427387904 ==> lensum(transactions) >= limit)
 
 // ---- signature-bounded paging ----
 // sigOf(tx) is the pure (Transaction).Signature() of package ipldbindcode (first signature of the node).
@@ -114,6 +122,12 @@ package gsfa
 //@   loop 0 invariant limit > 0 && lensum(transactions) <= limit
 //@   loop 1 invariant limit > 0 && lensum(transactions) <= limit
 //@   loop 2 invariant limit > 0 && lensum(transactions) <= limit
+//@   # no premature end of a chain walk (loop 1): chain ended / limit reached / empty record / limit reached / `until` was just appended
+//@   loop 1 exit#0 next == nil || (next.Offset == 0 && next.Size == 0)
+//@   loop 1 exit#1 limit > 0 && lensum(transactions) >= limit
+//@   loop 1 exit#2 len(locations) == 0
+//@   loop 1 exit#3 limit > 0 && lensum(transactions) >= limit
+//@   loop 1 exit#4 until != nil && sig == *until
 
 // ---- constructor, epoch tag, public wrappers ----
 
